@@ -49,7 +49,7 @@ func checkC19(cx *Ctx, r *Report) {
 			nonEmpty, parsed, host, scheme := false, false, false, false
 			for _, a := range p.Atoms {
 				switch {
-				case a.Op == "EMPTY" && a.Neg && a.A == "ValidateIssuer/issuer":
+				case a.Op == "EMPTY" && a.Neg && a.TA == "<#0 string>":
 					nonEmpty = true
 				case a.Op == "NIL" && !a.Neg && strings.HasSuffix(a.A, "url.Parse#1"):
 					parsed = true
@@ -58,7 +58,7 @@ func checkC19(cx *Ctx, r *Report) {
 				case a.Op == "EQ" && !a.Neg && (a.A == "const:https" && strings.HasSuffix(a.B, "url.Parse#0.Scheme") || a.B == "const:https" && strings.HasSuffix(a.A, "url.Parse#0.Scheme")):
 					scheme = true
 				case a.Op == "CALL:provider.devLocalAllowed" && !a.Neg:
-					if cc, ok := stripNot(a.Cond).(*ssa.Call); ok && strings.HasSuffix(fx.path(cc.Call.Args[0]), "url.Parse#0") && fx.path(cc.Call.Args[1]) == "ValidateIssuer/allowInsecure" {
+					if cc, ok := stripNot(a.Cond).(*ssa.Call); ok && strings.HasSuffix(fx.path(cc.Call.Args[0]), "url.Parse#0") && fx.T(fx.path(cc.Call.Args[1])) == "<#1 bool>" {
 						scheme = true
 					}
 				}
@@ -74,7 +74,7 @@ func checkC19(cx *Ctx, r *Report) {
 		// url.Parse is applied to the issuer parameter
 		okParse := false
 		for _, c := range callsIn(vi) {
-			if calleeName(c) == "net/url.Parse" && fx.path(c.Common().Args[0]) == "ValidateIssuer/issuer" {
+			if calleeName(c) == "net/url.Parse" && fx.T(fx.path(c.Common().Args[0])) == "<#0 string>" {
 				okParse = true
 			}
 		}
@@ -96,7 +96,7 @@ func checkC19(cx *Ctx, r *Report) {
 			n++
 			frag, query := false, false
 			for _, a := range p.Atoms {
-				if a.Op == "EMPTY" && !a.Neg && a.A == "ValidateIssuerPath/issuer.Fragment" {
+				if a.Op == "EMPTY" && !a.Neg && a.TA == "<url.URL>.Fragment" {
 					frag = true
 				}
 				if a.Op == "EMPTY" && !a.Neg && strings.HasSuffix(a.A, "url.URL).Query") {
@@ -118,7 +118,7 @@ func checkC19(cx *Ctx, r *Report) {
 		for _, p := range tp {
 			ins, http := false, false
 			for _, a := range p.Atoms {
-				if a.Op == "TRUE" && !a.Neg && a.A == "devLocalAllowed/allowInsecure" {
+				if a.Op == "TRUE" && !a.Neg && a.TA == "<#1 bool>" {
 					ins = true
 				}
 				if a.Op == "EQ" && !a.Neg && (a.A == "const:http" || a.B == "const:http") && strings.HasSuffix(a.A+a.B, ".Scheme") {
@@ -137,7 +137,7 @@ func checkC19(cx *Ctx, r *Report) {
 		okArgs := false
 		for _, c := range callsIn(f) {
 			if calleeOf(c) == vi {
-				okArgs = strings.HasSuffix(fx.path(c.Common().Args[0]), "StaticIssuer/issuer") && fx.path(c.Common().Args[1]) == "StaticIssuer$1/allowInsecure"
+				okArgs = fx.T(fx.path(c.Common().Args[0])) == "<#0 string>" && fx.T(fx.path(c.Common().Args[1])) == "<#0 bool>"
 			}
 		}
 		r.Check(okArgs, "R-VFG", "StaticIssuer:validates", w.FnPos(f), "validates its own issuer with the insecure flag it is given", "StaticIssuer does not validate its issuer with the insecure flag it is given")
@@ -145,7 +145,7 @@ func checkC19(cx *Ctx, r *Report) {
 		if g := w.Func("provider.StaticIssuer$1$1"); g != nil {
 			okR := true
 			for _, ret := range returnsOf(g) {
-				if !strings.HasSuffix(fx.path(ret.Results[0]), "StaticIssuer/issuer") {
+				if fx.T(fx.path(ret.Results[0])) != "<#0 string>" {
 					okR = false
 				}
 			}
@@ -158,7 +158,7 @@ func checkC19(cx *Ctx, r *Report) {
 		cx.checkErrPropagation(r, "R-ERR", "provider.NewProvider", np)
 		okFlag := false
 		for _, c := range callsIn(np) {
-			if calleeOf(c) == nil && !c.Common().IsInvoke() && fx.path(c.Common().Value) == "NewProvider/issuer" {
+			if calleeOf(c) == nil && !c.Common().IsInvoke() && isParamIdx(c.Common().Value, 1) {
 				okFlag = strings.HasSuffix(fx.path(c.Common().Args[0]), ".insecure")
 			}
 		}
@@ -177,10 +177,20 @@ func checkC19(cx *Ctx, r *Report) {
 	for _, ret := range returnsOf(cl) {
 		ls.addAll(vf.Labels(ret.Results[0]), 0)
 	}
-	allowed := []string{"const:https", "const:http", "const:://", "const:/", "param:provider.issuerFromForwardedOrHost/path", "param:provider.issuerFromForwardedOrHost$1$1/r.Host",
-		`ext:httpforwarded.ParseParameter("host")#0[]`, "const:"}
-	r.checkSources("R-VFG", "derived-issuer:sources", w.FnPos(cl), ls, allowed, []string{"const:https", "const:http", "param:provider.issuerFromForwardedOrHost$1$1/r.Host", `ext:httpforwarded.ParseParameter("host")#0[]`, "param:provider.issuerFromForwardedOrHost/path"}, false)
+	allowed := []string{"const:*", "param:provider.issuerFromForwardedOrHost/#0", "param:provider.issuerFromForwardedOrHost$1$1/#0.Host",
+		`ext:httpforwarded.ParseParameter("host")#0[]`}
+	ls = vf.Deep(ls)
+	r.checkSources("R-VFG", "derived-issuer:sources", w.FnPos(cl), ls, allowed, []string{"const:https", "const:http", "param:provider.issuerFromForwardedOrHost$1$1/#0.Host", `ext:httpforwarded.ParseParameter("host")#0[]`, "param:provider.issuerFromForwardedOrHost/#0"}, false)
+	plainFormats := true
 	for _, l := range ls.keys() {
+		if strings.HasPrefix(l, "const:") && strings.Contains(l, "%") && strings.Contains(strings.ReplaceAll(strings.TrimPrefix(l, "const:"), "%s", ""), "%") {
+			plainFormats = false
+		}
+	}
+	for _, l := range ls.keys() {
+		if l == "via:fmt.Sprintf" && plainFormats {
+			continue // Sprintf with %s verbs only is concatenation
+		}
 		if strings.HasPrefix(l, "via:") && l != "via:concat" {
 			r.Fail("R-VFG", "derived-issuer:"+l, w.FnPos(cl), "the derived issuer passes through "+strings.TrimPrefix(l, "via:")+": it is no longer the plain concatenation scheme + host + path")
 		}
@@ -209,7 +219,7 @@ func checkC19(cx *Ctx, r *Report) {
 		// headers consulted: exactly the configured list
 		lh, hs := vf.CallArgSources(matchFnKey(w, "provider.hostFromForwarded"), 1)
 		if len(hs) > 0 {
-			r.checkSources("R-VFG", "derived-issuer:headers", w.InstrPos(hs[0]), lh, []string{"param:provider.issuerFromForwardedOrHost/c.headers"}, []string{"param:provider.issuerFromForwardedOrHost/c.headers"}, true)
+			r.checkSources("R-VFG", "derived-issuer:headers", w.InstrPos(hs[0]), lh, []string{"param:provider.issuerFromForwardedOrHost/#1.headers"}, []string{"param:provider.issuerFromForwardedOrHost/#1.headers"}, true)
 		} else {
 			r.Fail("R-VFG", "derived-issuer:headers", w.FnPos(cl), "hostFromForwarded is no longer called with the configured header list")
 		}
@@ -217,7 +227,7 @@ func checkC19(cx *Ctx, r *Report) {
 		lhv := cx.newVFlow("hostFromForwarded", hf)
 		lp, ps := lhv.CallArgSources(matchCallee("github.com/muhlemmer/httpforwarded.ParseParameter"), 1)
 		if len(ps) > 0 {
-			r.checkSources("R-VFG", "hostFromForwarded:values", w.InstrPos(ps[0]), lp, []string{"param:provider.hostFromForwarded/r.Header[]"}, []string{"param:provider.hostFromForwarded/r.Header[]"}, true)
+			r.checkSources("R-VFG", "hostFromForwarded:values", w.InstrPos(ps[0]), lp, []string{"param:provider.hostFromForwarded/#0.Header[]"}, []string{"param:provider.hostFromForwarded/#0.Header[]"}, true)
 			ln, _ := lhv.CallArgSources(matchCallee("github.com/muhlemmer/httpforwarded.ParseParameter"), 0)
 			r.checkSources("R-VFG", "hostFromForwarded:parameter", w.InstrPos(ps[0]), ln, []string{"const:host"}, []string{"const:host"}, true)
 		} else {
@@ -248,9 +258,9 @@ func checkC19(cx *Ctx, r *Report) {
 		for _, p := range aps {
 			for _, a := range p.Atoms {
 				switch {
-				case a.Op == "TRUE" && a.A == "dynamicIssuer/allowInsecure":
-				case a.Op == "EMPTY" && a.A == "dynamicIssuer/path", a.Op == "LT" && strings.Contains(a.A+a.B, "dynamicIssuer/path"):
-				case a.Op == "CALL:strings.HasPrefix" && strings.HasPrefix(a.A, "dynamicIssuer/path;const:/"):
+				case a.Op == "TRUE" && a.TA == "<#2 bool>":
+				case a.Op == "EMPTY" && a.TA == "<#1 string>", a.Op == "LT" && strings.Contains(a.TA+a.TB, "<#1 string>"):
+				case a.Op == "CALL:strings.HasPrefix" && strings.HasPrefix(a.TA, "<#1 string>;const:/"):
 				default:
 					bad = "dynamicIssuer branches on " + a.String() + ": the issuer depends on something other than the insecure flag and the shape of the configured path"
 				}
@@ -262,7 +272,19 @@ func checkC19(cx *Ctx, r *Report) {
 		for _, ret := range returnsOf(di) {
 			dl.addAll(dvf.Labels(ret.Results[0]), 0)
 		}
-		r.checkSources("R-VFG", "dynamicIssuer:sources", w.FnPos(di), dl, []string{"const:https", "const:http", "const:://", "const:/", "param:provider.dynamicIssuer/issuer", "param:provider.dynamicIssuer/path"}, []string{"const:https", "const:http", "const:://", "param:provider.dynamicIssuer/issuer", "param:provider.dynamicIssuer/path"}, false)
+		dl = dvf.Deep(dl)
+		for _, l := range dl.keys() {
+			// the literal pieces: only scheme, separator and slash (possibly inside a %s-only format)
+			if strings.HasPrefix(l, "const:") {
+				lit := strings.ReplaceAll(strings.TrimPrefix(l, "const:"), "%s", "")
+				switch lit {
+				case "https", "http", "://", "/", "", "zero":
+				default:
+					r.Fail("R-VFG", "dynamicIssuer:literal", w.FnPos(di), "the derived issuer contains the literal "+lit)
+				}
+			}
+		}
+		r.checkSources("R-VFG", "dynamicIssuer:sources", w.FnPos(di), dl, []string{"const:*", "param:provider.dynamicIssuer/#0", "param:provider.dynamicIssuer/#1"}, []string{"const:https", "const:http", "param:provider.dynamicIssuer/#0", "param:provider.dynamicIssuer/#1"}, false)
 	} else {
 		r.Fail("R-GUARD", "dynamicIssuer", "", "anchor not found")
 	}
